@@ -4,7 +4,7 @@
    identifying attribute); invariant and [Public]: proofs/NamespaceProofs.v, NamespaceMain.v. *)
 From Coq Require Import List ZArith String.
 From Basyx Require Import model.Corr model.Namespace model.NamespaceObs proofs.NamespaceProofs proofs.NamespaceOps4
-  proofs.NamespaceMain.
+  proofs.NamespaceHooks proofs.NamespaceMain.
 Import ListNotations.
 Local Open Scope string_scope.
 
@@ -37,13 +37,14 @@ Theorem C01_atomic : forall c s p, Inv c s -> hooks_wf c s -> single_element_op 
   is_ok (snd (step c s p)) = false -> pub_eq s (fst (step c s p)).
 Proof. exact step_atomic. Qed.
 
-(* In an idShort universe that side condition is void: atomicity after every history. *)
-Theorem C01_atomic_reachable : forall cs pool ops p, pool_ok pool -> single_element_op p = true ->
-  let c := mkcfg AId cs in
+(* Atomicity after every history whose constructor calls install SubmodelElementList hooks on
+   idShort collections only ([op_wf]; the SDK has no other way to install them). *)
+Theorem C01_atomic_reachable : forall c pool ops p, pool_ok pool -> Forall (op_wf c) ops ->
+  single_element_op p = true ->
   is_ok (snd (step c (run c pool ops) p)) = false -> pub_eq (run c pool ops) (fst (step c (run c pool ops) p)).
 Proof.
-  intros cs pool ops p H S c E.
-  exact (step_atomic c _ p (Inv_run c pool ops H) (fun A => match A eq_refl with end) S E).
+  intros c pool ops p H F S E.
+  exact (step_atomic c _ p (Inv_run c pool ops H) (run_hooks_wf c ops _ F (init_hooks_wf c pool)) S E).
 Qed.
 
 (* The branches of the model that stand for "cannot happen in Python" (ValueError of
